@@ -17,7 +17,7 @@ YOUR TASK: make a small, realistic change to the library source (something a dev
       Expect "423 passed, 22 skipped".
   (3) The breakage must need something SPECIFIC to manifest - {flavour} - NOT something ordinary single use would expose at once. Make it as hard to stumble upon as you can while staying realistic: narrow trigger, ordinary behaviour everywhere else.
 
-Also write a demonstration: a standalone script {out}/demo.py that takes the source root as argv[1] (it must do `sys.path.insert(0, sys.argv[1])` before importing rtflite), exits 0 when the property holds and exits 1 (printing what went wrong) when it is violated. It must exit 1 against your modified worktree ({wt}/src) and exit 0 against the pristine source (use `git -C {wt} stash` / `git -C {wt} stash pop` to compare; do not create other worktrees). Verify both runs yourself. Keep the demo's run time under two minutes. There is no LibreOffice on this machine; if you need a converter, pass a duck-typed object via the `converter=` parameter or put a fake executable script on PATH / use `LibreOfficeConverter(executable_path=...)`.
+Also write a demonstration: a standalone script {out}/demo.py that takes the source root as argv[1] (it must do `sys.path.insert(0, sys.argv[1])` before importing rtflite), exits 0 when the property holds and exits 1 (printing what went wrong) when it is violated. It must exit 1 against your modified worktree ({wt}/src) and exit 0 against the pristine source (to compare, save your change with `git -C {wt} diff > {out}/patch.diff`, revert it with `git -C {wt} apply -R {out}/patch.diff`, run the demo, then re-apply with `git -C {wt} apply {out}/patch.diff`; do NOT use git stash (it is shared with other people) and do not create other worktrees). Verify both runs yourself. Keep the demo's run time under two minutes. There is no LibreOffice on this machine; if you need a converter, pass a duck-typed object via the `converter=` parameter or put a fake executable script on PATH / use `LibreOfficeConverter(executable_path=...)`.
 
 Deliverables (all under {out}/):
   - patch.diff : output of `git -C {wt} diff` (source changes only; do not modify tests)
